@@ -1116,7 +1116,15 @@ class Variable(CanBehaveLikeAVariable[T]):
         values = {self._id_: hv}
         for d in kwargs.values():
             values.update(d.bindings)
-        return OperationResult(values, not bool(instance), self)
+        # The truth value of the output only matters where it is a condition, as an operand (of a comparison, of
+        # another call, ...) a falsy output like 0 is a value like any other.
+        is_false = False
+        if (
+            isinstance(self._parent_, LogicalOperator)
+            or self._is_the_condition_of_its_parent_
+        ):
+            is_false = not bool(instance)
+        return OperationResult(values, is_false, self)
 
     @property
     def _name_(self):
